@@ -166,6 +166,41 @@ pub fn pad_last_inner_item(bytes: &[u8], pad: &[u8]) -> Option<Vec<u8>> {
     Some(out)
 }
 
+/// an `io::Write` that accepts at most `chunk` bytes per call (a socket, a pipe, a nearly full buffer behave like
+/// this): `BorshSerialize::serialize` into it must still produce exactly the bytes of `try_to_vec`
+pub struct ShortWriter {
+    pub out: Vec<u8>,
+    pub chunk: usize,
+}
+impl std::io::Write for ShortWriter {
+    fn write(&mut self, buf: &[u8]) -> std::io::Result<usize> {
+        let k = buf.len().min(self.chunk);
+        self.out.extend(&buf[..k]);
+        Ok(k)
+    }
+    fn flush(&mut self) -> std::io::Result<()> {
+        Ok(())
+    }
+}
+pub fn short_writer_agrees<T: borsh::BorshSerialize>(x: &T) -> Option<usize> {
+    let want = x.try_to_vec().ok()?;
+    for chunk in [1usize, 3, 7, 31, 32, 33, 255] {
+        let mut w = ShortWriter { out: vec![], chunk };
+        if x.serialize(&mut w).is_err() || w.out != want {
+            return Some(chunk);
+        }
+    }
+    // a fixed buffer one byte too small must be an error, never a silent truncation
+    if !want.is_empty() {
+        let mut small = vec![0u8; want.len() - 1];
+        let mut slice: &mut [u8] = &mut small;
+        if x.serialize(&mut slice).is_ok() {
+            return Some(0);
+        }
+    }
+    None
+}
+
 /// SCALE for C12 (implementation only, cheapest group): vectors beyond every plausible block size round-trip
 /// exactly through every vector wire type, and vectors differing only in the LAST item encode differently
 fn scale_c12<C: NatCtx>(v: &mut Env<C>) {
@@ -214,6 +249,40 @@ fn scale_c12<C: NatCtx>(v: &mut Env<C>) {
 
 pub fn run_c12<C: NatCtx>(v: &mut Env<C>) {
     scale_c12(v);
+    {
+        // every wire type written through a short-writing destination
+        let ctx = v.ctx.clone();
+        let tok = v.tok.clone();
+        let x = v.rnd_exp();
+        let key = PrivateKey::from(&v.x(&x), &ctx);
+        strand::verif_hooks::load_exp_tape(vec![]);
+        let e = v.rnd_member();
+        let c = key.get_pk().encrypt(&v.e(&e));
+        let zkp = strand::zkp::Zkp::new(&ctx);
+        let sp = zkp.schnorr_prove(&v.x(&x), key.pk_element(), None, b"w").unwrap();
+        let (_, cp) = key.decrypt_and_prove(&c, b"w").unwrap();
+        let s = p_shuffle::setup(v, &x, 2, b"sw");
+        let sh = strand::shuffler::Shuffler::new(&s.pk, &s.gens, &ctx);
+        let es = vec![c.clone(), key.get_pk().encrypt(&v.e(&e))];
+        let (eps, rs, perm) = sh.gen_shuffle(&es);
+        let pf = sh.gen_proof(&es, &eps, &rs, &perm, b"w").unwrap();
+        let mut bad: Vec<(&str, usize)> = vec![];
+        let mut chk = |name: &'static str, r: Option<usize>| if let Some(k) = r { bad.push((name, k)) };
+        chk("element", short_writer_agrees(&v.e(&e)));
+        chk("exponent", short_writer_agrees(&v.x(&x)));
+        chk("plaintext", short_writer_agrees(&C::p_raw(&x)));
+        chk("ciphertext", short_writer_agrees(&c));
+        chk("public key", short_writer_agrees(&key.get_pk()));
+        chk("private key", short_writer_agrees(&key));
+        chk("Schnorr proof", short_writer_agrees(&sp));
+        chk("Chaum-Pedersen proof", short_writer_agrees(&cp));
+        chk("shuffle proof", short_writer_agrees(&pf));
+        chk("StrandVectorC", short_writer_agrees(&StrandVectorC::<C>(es.clone())));
+        chk("StrandVectorE", short_writer_agrees(&StrandVectorE::<C>(s.gens.clone())));
+        chk("StrandVectorX", short_writer_agrees(&StrandVectorX::<C>(rs.clone())));
+        chk("Vec<Ciphertext>", short_writer_agrees(&es));
+        v.h.check(bad.is_empty(), || format!("serialising into a writer that takes at most k bytes per call (k = 0: a buffer one byte too small) does not give the bytes of try_to_vec / an error for {:?} on {}", bad, tok));
+    }
     let quick = v.h.tier == Tier::Quick;
     let reps = if v.small { if quick { 8 } else { 40 } } else if quick { 2 } else { 8 };
     let tok = v.tok.clone();
